@@ -109,8 +109,77 @@ def run(ctx):
         mod = ctx.mod(cfg)
         _fieldcover(ctx, cfg, prog, mod)
         _fieldkeep(ctx, cfg, prog, mod)
+        _sentinel(ctx, cfg, prog, mod)
         _gates(ctx, cfg, prog, mod)
     return ctx.finish(EXPLANATION)
+
+
+POINT_SER = '<geometry::point::Point as geometry::point::_::_serde::Serialize>::serialize'
+NONFINITE_TRUE = ('is_nan', 'is_infinite')
+FINITE_FALSE = ('is_finite_generic', 'is_finite')
+FPCAT_NONFINITE = {0, 1}       # std::num::FpCategory::{Nan, Infinite} (declaration order)
+
+
+def _sentinel(ctx, cfg, prog, mod):
+    """SENTINEL: the coordinate serialiser may replace a value by a sentinel (null / "Infinity") only
+    for non-finite values: every element write whose argument is not the coordinate itself is
+    unreachable once the non-finite edges (false edge of is_finite*, true edge of is_nan /
+    is_infinite, the Nan / Infinite arms of a match on classify()) are removed."""
+    import flow
+    import valueflow
+    ctx.rule('SENTINEL', 'Point::serialize writes a sentinel instead of the coordinate only on a non-finite edge')
+    b = ctx.anchor(cfg, POINT_SER)
+    if b is None:
+        return
+    al = mod.aliases(POINT_SER)
+    value_writes, sentinel_writes = [], []
+    for bb, t in b.calls():
+        if (t.callee or t.resolved or '').rsplit('::', 1)[-1] != 'serialize_element' or len(t.args) < 2:
+            continue
+        o = t.args[1]
+        from_self = False
+        if o.place is not None:
+            for leaf in valueflow.sources(b, al, o.place.local):
+                if leaf[0] == 'place' and leaf[1][0] == 1 and 'coords' in leaf[1][1]:
+                    from_self = True
+                if leaf[0] == 'call' and (leaf[1].callee or '').endswith('::next'):
+                    from_self = True      # the loop variable over self.coords
+        (value_writes if from_self else sentinel_writes).append(bb)
+    cut = set()
+    for bb, t in b.calls():
+        last = (t.callee or t.resolved or '').rsplit('::', 1)[-1]
+        cf = None
+        if last in NONFINITE_TRUE:
+            cf = flow.call_flow(b, bb)
+            cut |= cf.ok_edges
+        elif last in FINITE_FALSE:
+            cf = flow.call_flow(b, bb)
+            cut |= cf.err_edges
+        elif last == 'classify' and t.dest is not None and t.dest.is_local():
+            uses = flow._collect_uses(b)
+            locs = {t.dest.local}
+            for (ubb, _, node, how) in uses.get(t.dest.local, []):
+                if how == 'stmt' and node.rv.k in ('discr', 'use') and node.place.is_local():
+                    locs.add(node.place.local)
+            for l in list(locs):
+                for (ubb, _, node, how) in uses.get(l, []):
+                    if how == 'stmt' and node.rv.k == 'discr' and node.place.is_local():
+                        locs.add(node.place.local)
+            for l in locs:
+                for (sbb, _, snode, how) in uses.get(l, []):
+                    if how == 'switch':
+                        for v, tg in snode.values:
+                            if v in FPCAT_NONFINITE and tg != snode.otherwise:
+                                cut.add((sbb, tg))
+    reach = flow.reach_edges(b, [0], avoid_edges=cut)
+    bad = [bb for bb in sentinel_writes if bb in reach]
+    ctx.ob('SENTINEL', POINT_SER, cfg, bool(value_writes) and not bad,
+           'element writes: %d of the coordinate, %d sentinel(s); sentinel writes reachable without a non-finite edge: %s' % (
+               len(value_writes), len(sentinel_writes),
+               'none' if not bad else 'blocks %s (lines %s): a finite coordinate (e.g. a subnormal) can be written as a sentinel and '
+               'is then refused or altered on load' % (bad, [b.blocks[x].term.line for x in bad])),
+           site='%s:%d' % (b.file, b.line))
+    ctx.floor('coordinate element writes in Point::serialize', 1, len(value_writes), cfg)
 
 
 def _fieldcover(ctx, cfg, prog, mod):
